@@ -3,6 +3,7 @@ package c08
 
 import (
 	"context"
+	"deps.dev/util/semver"
 	"encoding/json"
 	"fmt"
 	"os"
@@ -451,7 +452,12 @@ func knownClass(obs string, u gen.Universe) string {
 		for _, p := range u.Pkgs {
 			for _, v := range p.Versions {
 				for _, r := range v.Reqs {
-					if r.Name == sel[1] && preLiteral.MatchString(r.Req) {
+					// The requirement must have been in force once: the version that
+					// makes it must be one the resolver can have pinned, i.e. each of
+					// its requirements has some version to go to (a candidate whose
+					// dependencies cannot be met is tried and dropped without leaving
+					// anything behind, in pip as in the library).
+					if r.Name == sel[1] && preLiteral.MatchString(r.Req) && pinnable(u, v) {
 						return "PrereleaseKeptAfterBacktrack"
 					}
 				}
@@ -459,6 +465,32 @@ func knownClass(obs string, u gen.Universe) string {
 		}
 	}
 	return ""
+}
+
+// pinnable: every requirement of the version, taken alone, is met by some
+// version of the universe (prereleases included; an over-approximation).
+func pinnable(u gen.Universe, v gen.UVer) bool {
+	for _, r := range v.Reqs {
+		c, err := semver.PyPI.ParseConstraint(r.Req)
+		if err != nil {
+			continue
+		}
+		found := false
+		for _, p := range u.Pkgs {
+			if p.Name != r.Name {
+				continue
+			}
+			for _, w := range p.Versions {
+				if pv, err := semver.PyPI.Parse(w.Version); err == nil && c.MatchVersionPrerelease(pv) {
+					found = true
+				}
+			}
+		}
+		if !found {
+			return false
+		}
+	}
+	return true
 }
 
 func sameRelease(a, b string) bool {
